@@ -129,6 +129,10 @@ func Equals(left, right Object) bool {
 	}
 	// Same rule inside containers: [1] and [1.0] Cmp to 0 but are not equal.
 	switch l := Value(left).(type) {
+	case Function:
+		// Same text is not enough: closures made by one factory differ by their captured environment.
+		r, ok := Value(right).(Function)
+		return ok && l.Env == r.Env && Cmp(l, r) == 0
 	case Array:
 		r, ok := Value(right).(Array)
 		if !ok || l.Len() != r.Len() {
